@@ -27,7 +27,8 @@ Proof. exact value_too_deep. Qed.
 Print Assumptions C06_nesting_bounded.
 
 Theorem C06_refused_nonsync_closes : forall cfg f total s tag r1 r2 name r3,
-  dec_atom s = DOk tag r1 -> dec_sp r1 = DOk tt r2 -> dec_atom r2 = DOk name r3 ->
+  dec_atom s = DOk tag r1 -> has_plus tag = false ->
+  dec_sp r1 = DOk tt r2 -> dec_atom r2 = DOk name r3 ->
   bytes_eqb (ascii_upper name) (s2b "UID") = false ->
   let h := handle_cmd cfg (fs_conn f) name r3 in
   (h_close h = true \/ (snd (discard_line (h_crlf h) (h_rest h)) = true /\ h_cls h <> 0)) ->
